@@ -411,7 +411,7 @@ impl<'a, 'b> G<'a, 'b> {
             }
             5 => Stmt::Rem { tick: self.t.chance(1, 2), text: format!(" {}", self.t.pick(&["note", "é remark", "GOTO 10", "x: y", "\"q"])) },
             6 => {
-                if self.t.chance(1, 5) {
+                if self.t.chance(1, 3) {
                     Stmt::Restore(None)
                 } else {
                     let n = 1 + self.t.below(2);
@@ -834,6 +834,27 @@ impl<'a, 'b> G<'a, 'b> {
     }
 }
 
+fn retarget_restore(stmts: &mut Vec<Stmt>, labels: &[u16], t: &mut Tape) {
+    for s in stmts.iter_mut() {
+        match s {
+            Stmt::Restore(n @ None) => {
+                if t.chance(1, 2) {
+                    *n = Some(*t.pick(labels));
+                }
+            }
+            Stmt::If { then_, else_, .. } => {
+                if let Arm::Stmts(v) = then_ {
+                    retarget_restore(v, labels, t);
+                }
+                if let Some(Arm::Stmts(v)) = else_ {
+                    retarget_restore(v, labels, t);
+                }
+            }
+            _ => {}
+        }
+    }
+}
+
 /// Removes remarks everywhere in a statement list that is followed by more text on the line.
 pub fn strip_rems(stmts: &mut Vec<Stmt>) {
     stmts.retain(|s| !matches!(s, Stmt::Rem { .. }));
@@ -959,6 +980,13 @@ pub fn program(t: &mut Tape, o: &GenOpts) -> Generated {
             let at = g.t.below(lines.len() + 1);
             let l = g.label();
             lines.insert(at, (l, vec![Stmt::Data(items)]));
+        }
+    }
+    // RESTORE n: any line may be named (the first constant at or after it is meant)
+    if g.o.data && !lines.is_empty() {
+        let labels: Vec<u16> = lines.iter().map(|(l, _)| *l).collect();
+        for (_, stmts) in lines.iter_mut() {
+            retarget_restore(stmts, &labels, g.t);
         }
     }
     // line numbers: random increasing
